@@ -20,6 +20,7 @@ fn main() {
         disconnects: 0,
         cap: 3,
         start_peer_id: 0,
+        defer: false,
     };
     let cfgs = match run.tier {
         Tier::Quick => vec![
@@ -30,13 +31,18 @@ fn main() {
             NCfg { addrs: 3, remote_sends: 1, net_sends: 0, drops: 0, advances: 0, ..base.clone() },
             NCfg { addrs: 3, garbage: 1, remote_sends: 0, net_sends: 0, advances: 0, ..base.clone() },
             NCfg { addrs: 2, disconnects: 2, remote_sends: 1, net_sends: 1, advances: 0, start_peer_id: u32::MAX - 1, ..base.clone() },
+            // the application leaves connection requests undecided across other peers' traffic and ticks
+            NCfg { defer: true, addrs: 2, remote_sends: 0, net_sends: 1, advances: 2, ..base.clone() },
         ],
         Tier::Thorough => vec![
+            NCfg { defer: true, addrs: 3, remote_sends: 0, net_sends: 0, advances: 1, ..base.clone() },
             NCfg { addrs: 3, remote_sends: 1, net_sends: 0, drops: 0, advances: 0, ..base.clone() },
             NCfg { addrs: 2, remote_sends: 1, net_sends: 1, drops: 1, advances: 2, ..base.clone() },
             NCfg { addrs: 3, garbage: 1, remote_sends: 0, net_sends: 0, advances: 0, ..base.clone() },
             NCfg { addrs: 2, disconnects: 2, remote_sends: 1, net_sends: 1, advances: 0, start_peer_id: u32::MAX - 1, ..base.clone() },
             NCfg { accepting: false, addrs: 2, net_connects: 2, remote_sends: 1, net_sends: 1, advances: 2, drops: 1, garbage: 0, ..base.clone() },
+            NCfg { defer: true, addrs: 2, remote_sends: 1, net_sends: 1, advances: 2, disconnects: 1, ..base.clone() },
+            NCfg { defer: true, addrs: 3, remote_sends: 0, net_sends: 1, advances: 2, ..base.clone() },
         ],
     };
     let mut outcomes = Vec::new();
@@ -51,7 +57,7 @@ fn main() {
     }
     vp_net::record(&run, &outcomes);
     run.add_evals(outcomes.iter().map(|o| o.transitions).sum());
-    run.assume("the application accepts, rejects or ignores a connection request immediately on the Connect event (as every user of Net in the repository does)");
+    run.assume("a connection request is decided (accept / reject / ignore) either at once on the Connect event or, in the defer configurations, at any later step while the peer is still unconnected; a retransmitted request that reaches an undecided peer makes its connection answer by itself (the reference connection does the same) and the decision is then moot");
     run.assume("connect requests from unknown addresses are the two forms real clients send (with and without the DDNet token extension)");
     run.finish(
         "explicit-state exploration (stateright BFS) of one real Net + per-address real remote connections + per-address reference connections; after every step events (peer ids mapped to addresses), outgoing datagrams with destination, needs_tick and the complete per-peer state must equal the references; peer ids must be distinct",
